@@ -48,7 +48,7 @@ DIRECT_EDIT_STAGES = {
     "fixes.implicit_dict_keys_values_items", "fixes.missing_context_manager", "fixes.move_before_loop",
     "fixes.remove_duplicate_functions", "fixes.sort_imports", "fixes.swap_if_else",
     "processing.minimize_whitespace_line_differences", "rmspace.format_str", "str.expandtabs",
-    "textwrap.dedent", "textwrap.indent",
+    "textwrap.dedent", "core.indent",
 }
 
 
@@ -283,7 +283,7 @@ class Env:
         stage_names = set(self.multi_names) | {n for n in self.fc_attrs if n not in NOT_STAGES}
         for name in sorted(stage_names):
             m, a = name.split(".")
-            if m in ("rmspace", "textwrap"):
+            if m in ("rmspace", "textwrap") or name == "core.indent":
                 continue
             self.real[name] = getattr(mods[m], a)
             patch(mods[m], a, self._stage_fake(name))
@@ -303,6 +303,9 @@ class Env:
 
         patch(main, "rmspace", types.SimpleNamespace(format_str=fmt))
         patch(main, "textwrap", types.SimpleNamespace(dedent=dedent, indent=indent))
+        # since repair ffe758f the snippet is re-indented by core.indent (only format_code calls it): same stage
+        if hasattr(mods["core"], "indent"):
+            patch(mods["core"], "indent", indent)
 
         def is_valid(source):
             return bool(env.script["valid"][env.sid(source)]) if isinstance(source, TStr) else False
@@ -644,7 +647,7 @@ def format_code_correspondence(mods, wd: Path, tier: str, seed: int, part: str =
     res["n_multi"] = len(env.multi_names)
     res["multi_preserve"] = [n for n, p in env.multi if p]
     unknown = [n for n in env.fc_attrs if n not in NOT_STAGES and n not in CODE
-               and n not in ("textwrap.indent",)]
+               and n not in ("textwrap.indent", "core.indent")]
     res["unknown_stage_attrs"] = unknown
     rnd = random.Random(seed)
     scripts = []
